@@ -55,7 +55,8 @@ ApplyInt(n, s) ==
     [] n = "INTEGER.DDUP" -> IF Has(s, "int", 2) THEN Fired(SetF(s, "int", <<s.int[1], s.int[2]>> \o s.int))
                              ELSE Unfired(s)
     [] n = "INTEGER.FROMBOOLEAN" -> Un(s, "bool", LAMBDA r, a : Fired(PushOn(r, "int", IF a THEN 1 ELSE 0)))
-    [] n = "INTEGER.FROMFLOAT"   -> Un(s, "float", LAMBDA r, a : Fired(PushOn(r, "int", FToInt(a))))
+    \* truncation toward zero; out of range (also NaN, infinities): any INTEGER (the implementation saturates)
+    [] n = "INTEGER.FROMFLOAT"   -> Un(s, "float", LAMBDA r, a : PushIntRes(r, <<FToIntFits(a), FToInt(a)>>))
 
 \* the float zero-divisor rule: +0.0 and -0.0 are zero divisors, NaN is not
 FloatInstr == {"FLOAT.+", "FLOAT.-", "FLOAT.*", "FLOAT./", "FLOAT.%", "FLOAT.<", "FLOAT.=", "FLOAT.>",
